@@ -464,6 +464,51 @@ def r4_document(rep, src):
         rep.ok('C17.R4', a.site, 'new Files paragraph goes after the last Files paragraph', '4 layouts')
 
 
+def r7_reader_requirements(rep, src):
+    """what the paragraph classes demand of a parsed paragraph is what their creators guarantee: FilesParagraph.create() and
+    LicenseParagraph.create() refuse None only, so a field written from the empty text is there with an empty value.  The
+    validating constructors interpreted (sa.heap) on such paragraphs: a field that is present -- empty or not -- is not reported
+    missing; an absent one still is."""
+    from .. import heap as H
+    mod = src.mod(M)
+    cases = [('FilesParagraph', 'all fields with text', {'Files': 'x', 'Copyright': 'c', 'License': 'l'}, 'ok'),
+             ('FilesParagraph', 'Copyright and License present and empty', {'Files': 'x', 'Copyright': '', 'License': ''}, 'ok'),
+             ('FilesParagraph', 'no Copyright field', {'Files': 'x', 'License': 'l'}, 'complaint'),
+             ('FilesParagraph', 'no License field', {'Files': 'x', 'Copyright': 'c'}, 'complaint'),
+             ('FilesParagraph', 'no Files field', {'Copyright': 'c', 'License': 'l'}, 'raise'),
+             ('LicenseParagraph', 'License present and empty', {'License': ''}, 'ok'),
+             ('LicenseParagraph', 'License with text', {'License': 'l'}, 'ok'),
+             ('LicenseParagraph', 'no License field', {'Comment': 'c'}, 'raise')]
+    for cname, label, content, want in cases:
+        fn = mod.method(cname, '__init__')
+        if fn is None:
+            raise AnalysisError('%s:%s.__init__ not found' % (M, cname))
+        rep.saw_func(fn)
+        complaints = []
+        heap = H.Heap(mod, extra_modules=[src.mod('deb822')], hooks={'_complain': lambda it, a, k, c_=complaints: c_.append(a[0])})
+        it = H.Interp(heap)
+        d = heap.new_dict()
+        for k_, v_ in content.items():
+            heap.dict_set(d, k_, v_)
+        me = heap.alloc(cname, {'files': ('x',)})
+        params = fn.params()
+        args = [d] + [True] * (len(params) - 2)
+        what = '%s(parsed paragraph): %s' % (cname, label)
+        try:
+            it.call(H.Closure(fn.node, {}, me, fn.cls), args)
+            got = 'complaint' if complaints else 'ok'
+        except H.Raised as x:
+            got = 'raise'
+            complaints.append(x.exc)
+        if got == want:
+            rep.ok('C17.R7', fn.site, what, {'ok': 'accepted', 'complaint': 'reported', 'raise': 'refused'}[got])
+        elif want == 'ok':
+            rep.fail('C17.R7', fn.site, what, 'the strict reader %s (%s) a paragraph the creators write: create() accepts the empty text (only None is refused), the dump writes the field '
+                     'with an empty value, and the document is rejected when it is read back' % ('refuses' if got == 'raise' else 'complains about', complaints[0]), where=fn.where)
+        else:
+            rep.fail('C17.R7', fn.site, what, 'expected %s, got %s %r' % (want, got, complaints[:1]), where=fn.where)
+
+
 def check(src, rep, tier):
     rep.explanation = ('C17: (R1) the loop bodies of format_multiline_lines and parse_multiline_as_lines are interpreted as functions of one '
                        'line over abstract strings (literal prefix + input + literal suffix); conditions become regular constraints on the input '
@@ -481,7 +526,10 @@ def check(src, rep, tier):
     rep.guard('C17.R2', r2_converters, src)
     rep.guard('C17.R3', r3_wrapper, src)
     rep.guard('C17.R4', r4_document, src)
-    from . import common
+    from . import common, C08
+    rep.guard('C17.R6', C08.only_validated_stores, src, 'C17.R6')      # the wrapped paragraphs refuse un-encoded empty lines on every way in
+    rep.need('C17.R7', 8)
+    rep.guard('C17.R7', r7_reader_requirements, src)
     rep.need('C17.R5', 3)
     rep.guard('C17.R5', common.check_line_primitive, src, 'C17.R5', [M + ':format_multiline', M + ':parse_multiline_as_lines', M + ':License.to_str'],
               'a copyright or license text that contains such a character inside a line (the form feeds of the GPL texts, U+2028 from a web page) comes back with that line cut in two')
